@@ -1,2 +1,18 @@
 import SpoxModel.Props.C13
 /-! `#print axioms` for every property theorem of C13; parsed by ./check. -/
+#print axioms C13.spelling_class_of_code
+#print axioms C13.spelling_canonical
+#print axioms C13.elem_roundtrip
+#print axioms C13.code_roundtrip
+#print axioms C13.undefined_refused
+#print axioms C13.defined_accepted
+#print axioms C13.undefined_code_refused
+#print axioms C13.subclass_is_eq
+#print axioms C13.fromOnnx_toOnnx
+#print axioms C13.subtype_exact
+#print axioms C13.compat_iff_common_value
+#print axioms C13.subtype_iff_common_value
+#print axioms C13.broadcast_known
+#print axioms C13.broadcast_sound
+#print axioms C13.broadcast_raises_only_if_impossible
+#print axioms C13.broadcast_unknown_rank
